@@ -108,12 +108,39 @@ def char_classes_reaching(f, target):
             zero = [tb for v, tb in t[2] if v == "0"]
             if k is not None and zero and target in goto_chain(f, zero[0]):
                 out[k] = bi
+        elif d and d[1] == "T" and d[2][1].get("local") and f_ty(f, dl) == "bool" and target in goto_chain(f, t[3]):
+            # `if is_line_terminator(ch)`: the helper's summary (characters for which it returns true)
+            h = _fx[0].fns.get(d[2][1].get("d"))
+            if h is not None and h.argc >= 1:
+                for k in bool_char_summary(h):
+                    out[k] = bi
         else:
             # direct switch on the character
             if "char" == f_ty(f, dl):
                 for v, tb in t[2]:
                     if target in goto_chain(f, tb):
                         out[int(v)] = bi
+    return out
+
+
+def bool_char_summary(h):
+    """characters for which a `fn(char) -> bool` helper returns true (comparisons with constants, `matches!`)"""
+    out = set()
+    for bi, bl in enumerate(h.blocks):
+        for s in bl["s"]:
+            if s[0] == "a" and not s[1][1] and s[1][0] == 0:
+                if s[2][0] == "use" and s[2][1][0] == "k" and M.const_int(s[2][1]) == 1:
+                    out |= set(char_classes_reaching(h, bi))
+                elif s[2][0] == "bin" and s[2][1] == "Eq":
+                    k = M.const_int(s[2][2]) if s[2][2][0] == "k" else (M.const_int(s[2][3]) if s[2][3][0] == "k" else None)
+                    if k is not None:
+                        out.add(k)
+                elif s[2][0] == "use" and s[2][1][0] in ("c", "m"):
+                    dd = M.trace_back(h, s[2][1][1][0])
+                    if dd and dd[1] != "T" and dd[2][0] == "bin" and dd[2][1] == "Eq":
+                        k = M.const_int(dd[2][2]) if dd[2][2][0] == "k" else (M.const_int(dd[2][3]) if dd[2][3][0] == "k" else None)
+                        if k is not None:
+                            out.add(k)
     return out
 
 
@@ -449,15 +476,39 @@ def source_map(fx, ck, pre, control):
             nb += 1
             if fld == "code":
                 # the same function records a source map entry whose offset is code.len() taken before this push
-                entries = [(b2, s) for b2, bl in enumerate(f.blocks) for s in bl["s"]
+                entries = [(b2, s, None) for b2, bl in enumerate(f.blocks) for s in bl["s"]
                            if s[0] == "a" and s[2][0] == "agg" and s[2][1].get("k") == "adt" and s[2][1].get("p", "").endswith("SourceMapEntry")]
+                # ... or a helper called from here that is handed the index
+                for cb, ct in f.calls():
+                    g = fx.fns.get(ct[1].get("d")) if ct[1].get("local") else None
+                    if g is None or g.path == f.path:
+                        continue
+                    for b2, bl in enumerate(g.blocks):
+                        for s2 in bl["s"]:
+                            if s2[0] == "a" and s2[2][0] == "agg" and s2[2][1].get("k") == "adt" and s2[2][1].get("p", "").endswith("SourceMapEntry"):
+                                entries.append((b2, s2, (g, cb, ct)))
                 ok = bool(entries)
                 why = "records no source-map entry"
-                for b2, s in entries:
+                for b2, s, via in entries:
                     fields = s[2][1].get("fields") or []
                     off = s[2][2][fields.index("bytecode_offset")] if "bytecode_offset" in fields else None
                     spn = s[2][2][fields.index("span")] if "span" in fields else None
-                    lv = leaves(f, off) if off else set()
+                    if via is not None:
+                        g, cb, ct = via
+                        glv = leaves(g, off) if off else set()
+                        lv = set()
+                        for x in glv:
+                            if x[0] == "param" and x[1] - 1 < len(ct[2]):
+                                lv |= leaves(f, ct[2][x[1] - 1])
+                            else:
+                                lv.add(("other", "helper"))
+                        sl_h = leaves(g, spn) if spn else set()
+                        span_ok_h = any(y[0] == "field" and y[2] == "current_span" for y in sl_h) or \
+                            any("current_span" in str(F.place_fields(pl)) for l in (ancestors(g, spn[1][0]) if spn and spn[0] in ("c", "m") else ())
+                                for dbi, si, rv in g.defs().get(l, []) if si != "T" for pl in F.rvalue_places(rv))
+                    else:
+                        lv = leaves(f, off) if off else set()
+                        span_ok_h = None
                     # `code.len()` read before the push, or `code.len() - 1` read after it
                     forms = []
                     for x in lv:
@@ -483,7 +534,10 @@ def source_map(fx, ck, pre, control):
                         elif when == "after" and (not f.dominates(bi, lb) or lb == bi):
                             ok, why = False, "the offset `code.len() - 1` is read before the instruction was appended (off by one)"
                     sl = leaves(f, spn) if spn else set()
-                    if not any(y[0] == "field" and y[2] == "current_span" for y in sl) and \
+                    if span_ok_h is not None:
+                        if not span_ok_h:
+                            ok, why = False, "the recorded span is not the builder's current span"
+                    elif not any(y[0] == "field" and y[2] == "current_span" for y in sl) and \
                             not any("current_span" in str(F.place_fields(pl)) for l in (ancestors(f, spn[1][0]) if spn and spn[0] in ("c", "m") else ())
                                     for dbi, si, rv in f.defs().get(l, []) if si != "T" for pl in F.rvalue_places(rv)):
                         ok, why = False, "the recorded span is not the builder's current span"
